@@ -68,7 +68,7 @@ def eff(f):
 
 class Limits(Sub):
     name = "limits"
-    examples = {"quick": 2400, "thorough": 60000}
+    examples = {"quick": 2400, "thorough": 19200}
     shards = {"quick": 12, "thorough": 16}
     rule = RULE
 
